@@ -60,7 +60,7 @@ CLAIMED["C01"] = dict(
     text="Proof (Lean 4), for every validated machine set, fractions, oracle and history with arbitrary batches, unknown/huge ids and arbitrary (also backwards) clocks: "
          "no index is ever out of range, the transition recursion needs at most 6 of its 8 fuel units (CounterZero guard), every reached state is valid; the only fault the "
          "model can raise is the checked Duration addition of the blocking accounting, shown reachable by a kernel-evaluated witness that panics the real code too (known finding F6). "
-         "Monitor on the implementation: no panic, transition steps per call <= 6(events+1)(machines+1). The work bound itself is checked by the monitor, not yet by a theorem.",
+         "The work bound is a theorem on the model's ghost log (at most 3(events+1)(machines+1) transition invocations per call, any machines/oracle/batch); the monitor checks the implementation's hooked log against the bound and for panics.",
     ref="5 (C01)",
     technique="Lean 4: safety induction over the mutually recursive transition/update_counter with a fuel measure + bounded call-level walker; differential correspondence incl. panic class; monitor for the work bound",
 )
@@ -73,6 +73,35 @@ CLAIMED["C11"] = dict(
     ref="6 (C11)",
     technique="Lean 4 structural round-trip proofs over a bincode/base64/v1-parser model with zlib as a parameter + differential correspondence (valid, mutated, bomb strings)",
     note="Trusted in addition: zlib (flate2/miniz_oxide) is a parameter with a stated contract, validated on every run; heap use is outside the model (measured only); bincode/serde derive output is modelled and validated on every generated machine.",
+)
+
+CLAIMED["C07"] = dict(
+    text="Proof (Lean 4) of the limit logic of the model for all machines/oracles: no action of a limitable kind passes the limit predicates unless the state limit is > 0 (every path, incl. the zero-packet and replace paths), "
+         "every such action ever put in a slot was gated at a positive limit, the limit is resampled exactly on a change of state index, a completion decrements by one and at 0 with a limited action withdraws the pending action and "
+         "delivers LimitReached at once, other machines never touch the limit. The exact (L, c) bookkeeping over whole histories is checked by the monitor on the implementation's log (limit assignments are hooked) and by the correspondence, not by a theorem.",
+    ref="5 (C07)",
+    technique="Lean 4 theorems on the limit predicates and the decrement/enter functions of the model + hooked limit log: spec monitor and differential correspondence on the implementation",
+)
+CLAIMED["C08"] = dict(
+    text="Proof (Lean 4) of the counter logic of the model: updates saturate within u64, the operand is 1 / the saturating cast of the sample / the other counter's pre-transition value, an update reports zero exactly on non-zero -> zero with the "
+         "machine's own guard flag unset (flags per machine, cleared every call), CounterZero is delivered to the same machine at once iff an update reported zero and its action takes precedence. "
+         "Whole-history behaviour is tied to the code by the correspondence on counter values and the hooked counter log, and by the monitor from the property text.",
+    ref="5 (C08)",
+    technique="Lean 4 theorems on the counter update functions of the model + hooked counter log: spec monitor and differential correspondence on the implementation",
+)
+CLAIMED["C09"] = dict(
+    text="Proof (Lean 4): the pending-signal slot after any sequence of signalling transitions excludes x exactly when all came from x (however many) and is All once two distinct machines signalled; the delivery round visits every machine "
+         "except a lone signaller exactly once in index order and the lone signaller once afterwards iff the round raised a new signal (no machine twice). That each visit is one delivered Signal in the implementation is checked by the monitor on the "
+         "hooked internal log and by the correspondence, not by a theorem.",
+    ref="5 (C09)",
+    technique="Lean 4 theorems on the signal slot algebra and the unfolding of the delivery round + spec monitor on the implementation's internal log + differential correspondence",
+)
+CLAIMED["C10"] = dict(
+    text="Proof (Lean 4) of the frame half of non-interference for all machines and oracles: any transition (with all internal follow-ups) and any limit decrement of machine j leaves machine i's whole runtime (state, limit, counters, guard flags, accounting), "
+         "its action slot and the framework-wide accounting untouched; the only shared state a step can change is rng, log, fault and the signal slot. The converse half (a machine's own steps read only its component) is not a theorem: it is checked "
+         "differentially (combined vs solo run of a draw-independent probe on the projected history) on the implementation and the model.",
+    ref="5 (C10)",
+    technique="Lean 4 frame theorems over primitive steps (partial: frame half) + differential combined-vs-solo runs on the implementation + correspondence",
 )
 
 PENDING = {}
@@ -106,7 +135,7 @@ def main():
             "guard": "cargo feature `verif` (crates maybenot and maybenot-simulator)",
             "enable": "the harness crate /verif/harness depends on /repo/crates/* by path with features = [\"verif\"]",
             "baseline_off_cmd": "cd /repo && cargo test --workspace --no-fail-fast --offline",
-            "source_commits": ["343f4ea", "2c3354f", "843a1e5"],
+            "source_commits": ["343f4ea", "2c3354f", "843a1e5", "db681a3", "e66c91b"],
             "add_only": True,
         },
         "engines": [
